@@ -52,13 +52,13 @@ def main():
         out['confirmed']['ok'] = bool(ok)
         print('confirmed' if ok else 'NOT CONFIRMED', json.dumps(out['confirmed'])[:600])
     # run checks against the change applied to /repo (or to a scratch worktree with --wt)
-    env = None
+    env = dict(os.environ, VERIF_EVIDENCE_DIR=os.path.join(V, 'work', 'seeded-evidence'))   # never overwrite the evidence of the clean tree
     if use_wt:
         wt2 = f'/tmp/seedrun_{sid}'
         sh(f'git -C {REPO} worktree remove --force {wt2}')
         rc, o = sh(f'git -C {REPO} worktree add -q --detach {wt2} HEAD'); assert rc == 0, o
         rc, o = sh(f'git -C {wt2} apply {patch}'); assert rc == 0, o
-        env = dict(os.environ, KYUPY_REPO=wt2)
+        env['KYUPY_REPO'] = wt2
         out['ran_against'] = 'scratch worktree of /repo HEAD with the patch applied (KYUPY_REPO)'
     else:
         rc, o = sh(f'git -C {REPO} status --porcelain')
